@@ -54,8 +54,11 @@ fn actions(full: bool) -> Vec<(String, Kind)> {
         "DELETE 30",
         "DELETE 10",
         "NEW",
+        // output that depends on the variable store and on the DEFtype table
+        "Q=Q+1.5:PRINT Q;",
+        "DEFINT Q",
     ];
-    let bodies_small = ["PRINT \"x\";", "GOTO 30", "GOSUB 30", "RETURN", "STOP", "DEF FNA(X)=X+2", "PRINT )", "DELETE 30", "NEW"];
+    let bodies_small = ["Q=Q+1.5:PRINT Q;", "GOTO 30", "GOSUB 30", "RETURN", "STOP", "DEF FNA(X)=X+2", "PRINT )", "DELETE 30", "NEW"];
     for n in [10, 20, 30] {
         if full {
             for b in bodies_full {
@@ -73,7 +76,7 @@ fn actions(full: bool) -> Vec<(String, Kind)> {
     for e in ["DELETE 10-20", "DELETE 25", "DELETE 20-", "RENUM", "RENUM 100", "NEW", "LOAD \"p\"", "LOAD \"missing\""] {
         a.push((e.to_string(), Kind::Edit));
     }
-    for d in ["PRINT \"d\";", "A=1", "GOSUB 30", "FOR I=1 TO 3", "CLEAR"] {
+    for d in ["PRINT \"d\";", "A=1", "GOSUB 30", "FOR I=1 TO 3", "CLEAR", "DEFINT A-Z"] {
         a.push((d.to_string(), Kind::Direct));
     }
     for r in ["RUN", "RUN 20", "RUN 100", "RUN 110"] {
@@ -212,7 +215,7 @@ impl Check for C04 {
         let d = tier.pick(4, 5);
         Meta {
             bound: format!(
-                "breadth-first search over all histories of depth <= {} over 53 actions (27 line edits on lines 10/20/30, bare numbers present and absent, DELETE ranges hitting and missing, RENUM, RENUM 100, NEW, LOAD of a file and of a missing file, 5 non-editing direct statements, RUN, RUN 20/100/110, CONT, RETURN, NEXT, FN call), from the empty interpreter and from a 4-line program that was run and stopped inside a subroutine; the 92-action alphabet (18 bodies per line, including DELETE and NEW executed by the program itself) to depth {}; states deduplicated by the full state digest, and a run without deduplication to depth {} as a cross-check",
+                "breadth-first search over all histories of depth <= {} over 54 actions (27 line edits on lines 10/20/30 incl. a body whose output depends on the variable store and the DEFtype table, bare numbers present and absent, DELETE ranges hitting and missing, RENUM, RENUM 100, NEW, LOAD of a file and of a missing file, 6 non-editing direct statements incl. DEFINT A-Z, RUN, RUN 20/100/110, CONT, RETURN, NEXT, FN call), from the empty interpreter and from a 4-line program that was run and stopped inside a subroutine; the 87-action alphabet (20 bodies per line, including DELETE, NEW and DEFINT executed by the program itself) to depth {}; states deduplicated by the full state digest, and a run without deduplication to depth {} as a cross-check",
                 d,
                 d - 1,
                 d - 1
